@@ -537,6 +537,7 @@ class Cfg:
         self.p_twin_arg = 0.0        # chance that an argument repeats an earlier templated argument type with other inner qualifiers
         self.p_kwlike = 0.0          # chance that a name starts with / contains a keyword of the dialect (classification, structure_t, …)
         self.p_member_template = None  # chance of a member-level template (default p_template * 0.6)
+        self.extra_member_kinds = []  # member kinds to favour ('op', 'dunder', 'enum', …)
         self.ns_pool = None          # namespace names are drawn from this pool (small pool = re-opened namespaces)
         self.n_typedefs = None       # number of typedefs added by gen_module_inst (default: 0-4)
         self.mnames = None           # pool of method / function names (default MNAMES)
@@ -551,6 +552,7 @@ class Gen:
         self.counter = 0
         self.in_class = False
         self.scopes = [dict(classes=set(), funcs=[])]   # per-namespace names (innermost last)
+        self.ns_path, self.ns_scopes = [], {}
         self.ns_depth = 0            # namespace depth of the declaration being generated
         self.nest = 0                # template-argument nesting depth of the type being generated
         self.noscope = set()         # template parameters that must not be used as `T::X` (templated instantiations)
@@ -754,6 +756,7 @@ class Gen:
             kinds.append('enum')
         if self.cfg.allow_dunder:
             kinds.append('dunder')
+        kinds += list(self.cfg.extra_member_kinds)
         k = rng.choice(kinds)
         mt = None
         tps = tuple(ctparams)
@@ -880,13 +883,19 @@ class Gen:
                                        self.gen_default() if rng.random() < 0.5 else None))
         if k == 'ns':
             n = rng.randint(0, self.cfg.max_decls)
-            self.scopes.append(dict(classes=set(), funcs=[]))
+            name = self.nsname()
+            self.ns_path.append(name)
+            # a re-opened namespace continues the scope of its first block (class / enum names stay unique per C++ scope)
+            scope = self.ns_scopes.setdefault(tuple(self.ns_path), dict(classes=set(), funcs=[])) if self.cfg.unique_names \
+                else dict(classes=set(), funcs=[])
+            self.scopes.append(scope)
             try:
                 content = [self.gen_decl(depth + 1) for _ in range(n)]
             finally:
                 self.scopes.pop()
+                self.ns_path.pop()
                 self.ns_depth = depth
-            return Decl('ns', name=self.nsname(), content=content)
+            return Decl('ns', name=name, content=content)
         raise ValueError(k)
 
     def gen_module(self):
